@@ -4,20 +4,34 @@
 From OIDC Require Import Lib.
 From OIDC Require Export C05_Model.
 
+(* the client a request turned out to act for: the owner of a token / device code created by
+   it, of the token it revoked, of the token it reported active *)
+Inductive who := WNone | WSelf (* the case's client X *) | WOther (* anybody else, e.g. the victim Y *).
+
 Inductive observed :=
-| ORes (s : stclass) (e : ecode) (tok act : bool)
+| ORes (s : stclass) (e : ecode) (tok act : bool) (w : who)
     (* status class; error member of the JSON body; body carries a token / device code;
-       introspection said active:true, or the token sent to revocation is gone *)
+       introspection said active:true, or the token sent to revocation is gone; acted for *)
 | OPanic
 | ODouble.   (* WriteHeader called twice *)
 
 Definition issues_token (e : endpoint) := match e with EToken | EDeviceAuthz => true | _ => false end.
 Definition has_effect (e : endpoint) := match e with EIntrospect | ERevoke => true | _ => false end.
 
+(* the jwt-bearer grant reads no client credential: its assertion (issued by X in every case) is
+   all that counts *)
+Definition by_grant_assertion (i : input) : bool :=
+  match i_endpoint i, i_grant i with EToken, GBearer => true | _, _ => false end.
+
 Definition model (i : input) : observed :=
-  match authenticate (i_router i) (i_endpoint i) (i_cfg i) (i_reg i) (i_pres i) (i_grant i) with
+  let other := names_other_client (i_pres i) && negb (by_grant_assertion i) in
+  match authenticate (i_router i) (i_endpoint i) (i_cfg i)
+          (if other then victim_reg else i_reg i) (eff_pres (i_pres i)) (i_grant i)
+          (own_artefact (i_pres i)) with
   | Granted => ORes S2 ENone (issues_token (i_endpoint i)) (has_effect (i_endpoint i))
-  | Refused s e => ORes s e false false
+                    (if other then WOther else WSelf)
+  | Refused s e => ORes s e false false WNone
+  | Inactive => ORes S2 ENone false false WNone
   end.
 
 (* ---------------- the property *)
@@ -25,10 +39,11 @@ Definition model (i : input) : observed :=
 Definition presents_right_secret (p : pres) : bool :=
   match p with
   | PBasic SRight _ | PPost SRight | PBoth SRight _ | PBoth _ SRight => true
+  | PXBasic | PXPost | PXPostId => true   (* X's secret is in the request *)
   | _ => false
   end.
 Definition presents_ok_assertion (p : pres) : bool :=
-  match p with PAssert AOk => true | _ => false end.
+  match p with PAssert AOk | PXAssert => true | _ => false end.
 Definition identifies (p : pres) : bool := match p with PNone => false | _ => true end.
 
 (* "authenticated in the way it is registered" (Appendix D) *)
@@ -88,16 +103,29 @@ Definition oauth_code (e : ecode) : bool :=
 
 (* a refusal: status >= 400, nothing issued, nothing disclosed or done; on the token endpoint an
    OAuth error document *)
-Definition refusal_shape (ep : endpoint) (s : stclass) (e : ecode) (tok act : bool) : bool :=
+Definition refusal_shape (ep : endpoint) (s : stclass) (e : ecode) (tok act : bool) (w : who) : bool :=
   match s with S4 | S5 => true | _ => false end
-  && negb tok && negb act
+  && negb tok && negb act && match w with WNone => true | _ => false end
   && match ep with EToken => oauth_code e | _ => true end.
 
+(* the request carries the victim's client id in the slot that names the client (Basic before
+   form), next to a secret that is not the victim's *)
+Definition names_other (p : pres) : bool :=
+  match p with PXPost | PXPostId => true | _ => false end.
+
+(* acting for another client than X: the victim is a known confidential client registered for
+   every grant whose own credential is never presented, so the only thing a request may obtain
+   in its name is what needs no authentication at all - a device code, when the request names it *)
+Definition other_justified (i : input) : bool :=
+  match i_endpoint i with EDeviceAuthz => names_other (i_pres i) | _ => false end.
+
+(* 2xx: justified by the registration and credential of the client the request acted for *)
 Definition spec (i : input) (o : observed) : bool :=
   match o with
   | OPanic | ODouble => false
-  | ORes S2 e tok act => justified i && match e with ENone => true | _ => false end
-  | ORes s e tok act => refusal_shape (i_endpoint i) s e tok act
+  | ORes S2 e tok act w => match e with ENone => true | _ => false end
+                           && match w with WOther => other_justified i | _ => justified i end
+  | ORes s e tok act w => refusal_shape (i_endpoint i) s e tok act w
   end.
 
 (* ---------------- comparison, path classes *)
@@ -110,10 +138,13 @@ Definition ec_n (e : ecode) : nat :=
   | EInvalidScope => 8 | EOther => 9 | ENotOAuth => 10 | ENotJSON => 11
   end.
 
+Definition who_n (w : who) : nat := match w with WNone => 0 | WSelf => 1 | WOther => 2 end.
+
 Definition obs_eqb (a b : observed) : bool :=
   match a, b with
-  | ORes s1 e1 t1 a1, ORes s2 e2 t2 a2 =>
+  | ORes s1 e1 t1 a1 w1, ORes s2 e2 t2 a2 w2 =>
       Nat.eqb (st_n s1) (st_n s2) && Nat.eqb (ec_n e1) (ec_n e2) && Bool.eqb t1 t2 && Bool.eqb a1 a2
+      && Nat.eqb (who_n w1) (who_n w2)
   | OPanic, OPanic | ODouble, ODouble => true
   | _, _ => false
   end.
@@ -132,7 +163,7 @@ Definition path (i : input) (o : observed) : nat :=
        end in
   if trivial then 0
   else match o with
-       | ORes s e _ _ => 1 + ep_n (i_endpoint i) + 4 * (ec_n e + 12 * match s with S5 => 1 | _ => 0 end)
+       | ORes s e _ _ _ => 1 + ep_n (i_endpoint i) + 4 * (ec_n e + 12 * match s with S5 => 1 | _ => 0 end)
        | _ => 0
        end.
 
